@@ -47,9 +47,12 @@ def photon_survival_rate(circuit):
                 if edge[2] == f"p{reg}"
             ]
             node = out_edge[0][1]
-            op_noise = circuit.dag.nodes[node]["op"].noise
+            op = circuit.dag.nodes[node]["op"]
+            op_noise = op.noise
             if isinstance(op_noise, list):
-                op_noise = op_noise[1]
+                # the noise of a two-qubit operation is listed per qubit (control, target): take this photon's entry
+                qubits = list(zip(op.q_registers, op.q_registers_type))
+                op_noise = op_noise[qubits.index((reg, "p"))]
 
             if isinstance(op_noise, PhotonLoss):
                 survive[reg] = (1 - op_noise.noise_parameters["loss rate"]) * survive[
